@@ -296,6 +296,12 @@ func (b *BlockList) readBlocklists() error {
 }
 
 func (b *BlockList) parseHostFile(file *os.File) error {
+	// The local file is the persisted form of the API-managed list: every
+	// line is a member. Dropping one because a listed parent already covers
+	// it would make a restart forget it, and a later removal of the parent
+	// would then unblock a name that is still listed.
+	keepCovered := filepath.Base(file.Name()) == "local"
+
 	scanner := bufio.NewScanner(file)
 	for scanner.Scan() {
 		line := scanner.Text()
@@ -331,7 +337,7 @@ func (b *BlockList) parseHostFile(file *os.File) error {
 				break
 			}
 			canonical := dns.CanonicalName(n)
-			if !b.Exists(canonical) {
+			if keepCovered || !b.Exists(canonical) {
 				b.set(canonical)
 			}
 		}
